@@ -207,12 +207,30 @@ def _one(args):
                          + (["Termination"] if "Temporal properties were violated" in out else [])
                          + (["deadlock"] if "Deadlock reached" in out else []),
                          "ok": "No error has been found" in out, "wall": round(wall, 1)}
+            outs = set()
+            for line in out.splitlines():
+                if line.startswith('"OUT '):
+                    try:
+                        o = json.loads(json.loads(line)[4:])
+                        outs.add(json.dumps({"res": o["res"], "st": o["st"]}, sort_keys=True))
+                    except Exception:  # noqa
+                        pass
+            res["model_outcomes"] = sorted(outs)
         if do_crash and len(sc.threads) == 2:
             out, wall = _tlc("MCImplCrash.tla", "MCImplCrash.cfg.tmpl", consts, sf, 2)
             m = re.search(r"(\d+) states generated, (\d+) distinct states found", out)
             res["crash_mc"] = {"distinct": int(m.group(2)) if m else 0,
                                "violated": re.findall(r"Invariant (\S+) is violated", out),
                                "ok": "No error has been found" in out, "wall": round(wall, 1)}
+            outs = set()
+            for line in out.splitlines():
+                if line.startswith('"OUT '):
+                    try:
+                        o = json.loads(json.loads(line)[4:])
+                        outs.add(json.dumps({"res": o["res"], "st": o["st"]}, sort_keys=True))
+                    except Exception:  # noqa
+                        pass
+            res["model_outcomes"] = sorted(outs)
     finally:
         shutil.rmtree(base, ignore_errors=True)
     return res
